@@ -105,8 +105,11 @@ class IsoImage:
         self.term_sector = None
         self.trees = {}
         self.objects = []         # (kind, start_byte, length, owner)
+        self.cur_tree = None
 
     def anom(self, rule, off, detail=''):
+        if self.cur_tree not in (None, 'iso'):
+            rule = rule + '@' + self.cur_tree
         self.anoms.append(Anomaly(rule, off, detail))
 
     def field(self, off, ln, meaning):
@@ -311,6 +314,7 @@ class IsoImage:
 
     def _tree(self, vd, encoding):
         t = Tree(vd, encoding)
+        self.cur_tree = encoding
         root = vd.root
         if root is None:
             return t
@@ -333,6 +337,7 @@ class IsoImage:
                 break
             self._read_dir(t, vd, d, encoding, queue)
         self._path_tables(t, vd, encoding)
+        self.cur_tree = None
         return t
 
     def _read_dir(self, t, vd, d, encoding, queue):
@@ -563,6 +568,8 @@ def cmp_93(r1, r2, encoding):
     c = _padcmp(a[1], b[1], pad)
     if c:
         return c
+    if r1.is_dir != r2.is_dir:
+        return 0    # a directory identifier has no version: 9.3 does not order it against a file of the same name
     # version: descending, padded on the left with '0'
     va = int(b''.join(a[2]).replace(b'\x00', b'') or b'0') if _digits(a[2]) else 0
     vb = int(b''.join(b[2]).replace(b'\x00', b'') or b'0') if _digits(b[2]) else 0
